@@ -25,7 +25,7 @@ META = {
         "inputs: file contents (UTF-8 bytes) -- G1 programs (ASCII and non-ASCII), corpus statements, xonsh seeds, C11's targeted syntax errors "
         "in generated layouts, G10 programs (triple-quoted tokens of 2..6 lines inside rejected constructs with a known range, f-string debug fields "
         "laid out over several lines, followed by errors whose diagnosis spans lines), G7 f-string statements, G4 mutations; a fifth of the inputs "
-        "gets a character str.splitlines() would split at (FF, VT, FS/GS/RS, NEL, U+2028/9) as a line of its own or at a random position; newline conventions LF / CRLF / lone CR / mixed, with and without final newline; each file is "
+        "gets a character str.splitlines() would split at (FF, VT, FS/GS/RS, NEL, U+2028/9) as a line of its own or at a random position, another fifth a row holding nothing but blanks; version-gated statements (try/except*, type parameters, type aliases) with blank/comment rows inserted are given to both entry points with the same py_version 3.8..3.12 (their reports span whole statements); newline conventions LF / CRLF / lone CR / mixed, with and without final newline; each file is "
         "parsed by parse_file(path) and by parse_string(bytes.decode('utf-8-sig'), mode='exec') (every 16th file carries a UTF-8 signature) inside child interpreters started in 5 process "
         "environments {LC_ALL=C.UTF-8; LC_ALL=C; LC_ALL=C PYTHONCOERCECLOCALE=0 PYTHONUTF8=0 (ASCII preferred encoding); -X utf8=1; -X utf8=0}.  "
         "Oracle: inside each child the two canonical outcomes (tree dump with positions / exception class, message, line, column, end, text) are "
